@@ -96,6 +96,10 @@ def canonicalize_license_expression(
         }:
             message = f"Invalid license expression: {raw_license_expression!r}"
             raise InvalidLicenseExpression(message)
+        elif token == ")" and python_tokens and python_tokens[-1] == "(":
+            # Python would read ``()`` as an (empty, hence false) tuple.
+            message = f"Invalid license expression: {raw_license_expression!r}"
+            raise InvalidLicenseExpression(message)
         else:
             python_tokens.append(token)
 
